@@ -377,6 +377,7 @@ func (w *World) doByzClaim(in Intent) {
 	if err != nil {
 		return
 	}
+	w.ByzVals[v.Oper.ValAddr().String()] = true
 	w.St.Fault("byz_mutated_claim")
 	w.St.Inc("byz:" + tn + ":" + mut)
 	w.Submit("claim", signer, in.Net, map[string]string{"chain": in.Chain, "val": strconv.Itoa(v.Idx), "nonces": strconv.FormatUint(n, 10), "true": "0", "mut": mut, "etype": tn},
